@@ -17,16 +17,21 @@ Fr == INSTANCE Fragmentation WITH MaxFs <- 1, MaxMul <- 1, dummy <- 0
 
 Rec == ndJsonDeserialize(IOEnv.TRACE)
 KnownS3 == IOEnv.KNOWN_S3 = "1"
-K == 4
+\* "a bounded number of rounds": K0, plus one round for every full window of sequence numbers the reader may have to
+\* ask for (one ACKNACK names at most Win consecutive numbers; KB of RtpsLink.tla with the window size of the code)
+K0 == 4
+Win == 256
+\* an assembly without progress for this long may be given up (the code: 10 s; one second of margin for real time)
+Stale == 9000
 
-VARIABLES l, run, clean, nfr, got, gotNow, tx, hoff, maxAck, viol, known
-tvars == <<l, run, clean, nfr, got, gotNow, tx, hoff, maxAck, viol, known>>
+VARIABLES l, run, clean, nfr, got, gotNow, arr, tx, hoff, maxAck, viol, known
+tvars == <<l, run, clean, nfr, got, gotNow, arr, tx, hoff, maxAck, viol, known>>
 
 ToSet(s) == {s[i] : i \in DOMAIN s}
 LMin(S) == CHOOSE x \in S : \A y \in S : x <= y
 
 \* tx: <<sn, fragment>> -> how often the writer put that fragment on the wire
-TraceInit == l = 1 /\ run = 0 /\ clean = 0 /\ nfr = <<>> /\ got = <<>> /\ gotNow = <<>> /\ tx = <<>> /\ hoff = 0 /\ maxAck = 0 /\ viol = {} /\ known = {}
+TraceInit == l = 1 /\ run = 0 /\ clean = 0 /\ nfr = <<>> /\ got = <<>> /\ gotNow = <<>> /\ arr = <<>> /\ tx = <<>> /\ hoff = 0 /\ maxAck = 0 /\ viol = {} /\ known = {}
 
 Put(f, k, v) == [x \in DOMAIN f \cup {k} |-> IF x = k THEN v ELSE f[x]]
 
@@ -35,6 +40,7 @@ Round(e) ==
       traffic == ToSet(e.traffic)
       handed  == e.handed
       c2 == IF e.faults > 0 THEN 0 ELSE clean + 1
+      K == K0 + (e.last \div Win)
       converged == missing = {} /\ e.acked = e.last + 1
       \* the number the reader is stuck at: the base of its ACKNACKs as the writer sees it (after a re-match of the reader
       \* side this can be a sample that was handed over during the previous match and is requested again)
@@ -58,7 +64,8 @@ Round(e) ==
       vQuiet == IF c2 >= K + 1 /\ converged /\ traffic # {} THEN {"C02_traffic_after_convergence"} ELSE {}
       vBytes == IF e.bytes_bad # <<>> THEN {"C05_reassembled_bytes_differ"} ELSE {}
       \* (hoff: what was handed over before the reader side re-matched the writer belongs to the previous match)
-      vTwice == IF \E i, j \in DOMAIN handed : hoff < i /\ i < j /\ handed[i] = handed[j] THEN {"C05_sample_delivered_twice"} ELSE {}
+      vTwice == IF Len(handed) > hoff /\ Cardinality({handed[i] : i \in (hoff + 1)..Len(handed)}) # Len(handed) - hoff
+                  THEN {"C05_sample_delivered_twice"} ELSE {}
       \* every fragment of the lowest sample not yet handed over (nothing holds it back: the reliable reader hands
       \* over in order) has been delivered to the reader, yet it is not handed over
       \* (e.acked >= sn: the reader has acknowledged everything below it, so it knows the fate of every lower number -
@@ -73,22 +80,27 @@ Round(e) ==
      /\ viol' = viol \cup vConv \cup vQuiet \cup vBytes \cup vTwice \cup vInc \cup vAsm
      /\ known' = known \cup kConv
      /\ maxAck' = IF e.acked > maxAck THEN e.acked ELSE maxAck
-     /\ UNCHANGED <<run, nfr, got, gotNow, tx, hoff>>
+     /\ UNCHANGED <<run, nfr, got, gotNow, arr, tx, hoff>>
 
 Step ==
   /\ l <= Len(Rec)
   /\ l' = l + 1
   /\ LET e == Rec[l] IN
-     CASE e.ev = "Reset" -> run' = e.run /\ clean' = 0 /\ nfr' = <<>> /\ got' = <<>> /\ gotNow' = <<>> /\ tx' = <<>> /\ hoff' = 0 /\ maxAck' = 0 /\ viol' = {} /\ known' = {}
-       [] e.ev = "Write" -> nfr' = Put(nfr, e.sn, e.nfrags) /\ clean' = 0 /\ UNCHANGED <<run, got, gotNow, tx, hoff, maxAck, viol, known>>
-       [] e.ev = "Clean" -> clean' = 0 /\ UNCHANGED <<run, nfr, got, gotNow, tx, hoff, maxAck, viol, known>>
+     CASE e.ev = "Reset" -> run' = e.run /\ clean' = 0 /\ nfr' = <<>> /\ got' = <<>> /\ gotNow' = <<>> /\ arr' = <<>> /\ tx' = <<>> /\ hoff' = 0 /\ maxAck' = 0 /\ viol' = {} /\ known' = {}
+       [] e.ev = "Write" -> nfr' = Put(nfr, e.sn, e.nfrags) /\ clean' = 0 /\ UNCHANGED <<run, got, gotNow, arr, tx, hoff, maxAck, viol, known>>
+       [] e.ev = "Clean" -> clean' = 0 /\ UNCHANGED <<run, nfr, got, gotNow, arr, tx, hoff, maxAck, viol, known>>
        \* the reader side re-matches the writer: convergence is owed again; gotNow = fragments that arrived during this match
-       [] e.ev = "Rematch" -> clean' = 0 /\ hoff' = e.handed /\ gotNow' = <<>> /\ UNCHANGED <<run, nfr, got, tx, maxAck, viol, known>>
+       [] e.ev = "Rematch" -> clean' = 0 /\ hoff' = e.handed /\ gotNow' = <<>> /\ arr' = <<>> /\ UNCHANGED <<run, nfr, got, tx, maxAck, viol, known>>
        [] e.ev = "Dgram" ->
             /\ got' = IF e.k = "FRAG" /\ e.fate # "drop"
                         THEN Put(got, e.sn, (IF e.sn \in DOMAIN got THEN got[e.sn] ELSE {}) \cup {e.f}) ELSE got
+            \* gotNow: the fragments the reader can be expected to still have.  The reader may discard an assembly that
+            \* made no progress for 10 s (virtual time e.t, milliseconds, moves only on a slow link): after a pause of
+            \* Stale or more the count starts again.  While fragments keep arriving less than Stale apart, it must not.
             /\ gotNow' = IF e.k = "FRAG" /\ e.fate # "drop"
-                        THEN Put(gotNow, e.sn, (IF e.sn \in DOMAIN gotNow THEN gotNow[e.sn] ELSE {}) \cup {e.f}) ELSE gotNow
+                        THEN Put(gotNow, e.sn, (IF e.sn \in DOMAIN gotNow /\ ~(e.sn \in DOMAIN arr /\ e.t - arr[e.sn] >= Stale)
+                                                  THEN gotNow[e.sn] ELSE {}) \cup {e.f}) ELSE gotNow
+            /\ arr' = IF e.k = "FRAG" /\ e.fate # "drop" THEN Put(arr, e.sn, e.t) ELSE arr
             /\ tx' = IF e.k = "FRAG" /\ e.dir = "wr"
                        THEN Put(tx, <<e.sn, e.f>>, (IF <<e.sn, e.f>> \in DOMAIN tx THEN tx[<<e.sn, e.f>>] ELSE 0) + 1) ELSE tx
             \* geometry of every DATAFRAG the real writer emitted (Fragmentation.tla)
